@@ -356,6 +356,8 @@ func runC15(e *Engine, r *Report) {
 	ruleChunkDescribesSnapshot(e, r)
 	// chunks travel in frames whose payload checksum gates delivery (decided by C13's rule set)
 	borrow(e, r, "C13", "VAL-frame")
+	ruleChunkKeyInjective(e, r)
+	ruleChunkCountSource(e, r)
 }
 
 // methodNamed: the call is a (static or interface) call of a method/function named name.
